@@ -3,6 +3,7 @@
    by Python equality; a symbol `k` is `Sym.prim "k" unknown`. -/
 import PS.Sexp
 import PS.Model.Enum.HeapSearch
+import PS.Model.Enum.UHeapSearch
 namespace PS.C92
 open PS PS.G Sexp
 
@@ -107,8 +108,75 @@ def handleDet (gr kind rej script fuel : Sexp) : Option Sexp := do
       | some (g, out) => pure (report E encBucket g out)
   | _ => none
 
+/-! ### unambiguous grammars -/
+abbrev UN := UHS.UNT Nat
+
+def decUNT : Sexp → Option UN
+  | .list [t, s] => do pure (Ty.base (← t.string?), ← s.nat?)
+  | _ => none
+
+def decAlt : Sexp → Option (List UN × Rat)
+  | .list [.list v, w] => do pure (← allSome decUNT v, ← decRat w)
+  | _ => none
+
+def decURule : Sexp → Option (Sym × List (List UN × Rat))
+  | .list [k, .list alts] => do pure (sym (← k.nat?), ← allSome decAlt alts)
+  | _ => none
+
+def decUG : Sexp → Option (UHS.UG Nat)
+  | .list [.atom "ucfg", .list starts, .list entries] => do
+      let st ← allSome (fun e => match e with
+        | .list [nt, w] => do pure (← decUNT nt, ← decRat w)
+        | _ => none) starts
+      let es ← allSome (fun e => match e with
+        | .list [nt, .list rs] => do pure (← decUNT nt, ← allSome decURule rs)
+        | _ => none) entries
+      pure ⟨st, es⟩
+  | _ => none
+
+section
+variable {π : Type}
+def runScriptU (E : UHS.Env Nat π) (fuel : Nat) :
+    List Act → UHS.St Nat π → List Sexp → Option (UHS.St Nat π × List Sexp)
+  | [], g, out => some (g, out)
+  | .merge p :: rest, g, out => runScriptU E fuel rest (UHS.merge E g p) out
+  | .take k :: rest, g, out =>
+    match UHS.take E fuel k g [] with
+    | none => none
+    | some (g', ys, fin) => runScriptU E fuel rest g' (out ++ [.list [.list (ys.map encProg), ofBool fin]])
+
+def reportU (E : UHS.Env Nat π) (encP : π → Sexp) (g : UHS.St Nat π) (out : List Sexp) : Sexp :=
+  let nts := AList.keys E.G.rules
+  .list [.atom "ok", .list out,
+    .list (nts.map fun nt => .list ((chain (g.succOf nt) 100000 none).map encProg)),
+    .list (nts.map fun nt => .list ((g.heapOf nt).map fun e => .list [encP e.1, encProg e.2])),
+    .list (g.deleted.map encProg),
+    .list (g.startHeap.map fun e => .list [encP e.1, encProg e.2.1])]
+end
+
+def handleU (gr kind rej script fuel kway : Sexp) : Option Sexp := do
+  let G ← decUG gr
+  let kway ← kway.bool?
+  let rejected ← allSome decProg (← rej.list?)
+  let acts ← allSome decAct (← script.list?)
+  let fuel ← fuel.nat?
+  let filt : Prog → Bool := fun p => !rejected.contains p
+  match kind with
+  | .list [.atom "heap", thr] =>
+      let E : UHS.Env Nat Rat := { G := G, ops := UHS.probOps (← decRat thr), filter := filt, kway := kway }
+      match runScriptU E fuel acts (UHS.St.empty G) [] with
+      | none => pure (.list [.atom "undef"])
+      | some (g, out) => pure (reportU E encRat g out)
+  | .list [.atom "bucket", sz] =>
+      let E : UHS.Env Nat UHS.Bucket := { G := G, ops := UHS.bucketOps (← sz.nat?) (!kway), filter := filt, kway := kway }
+      match runScriptU E fuel acts (UHS.St.empty G) [] with
+      | none => pure (.list [.atom "undef"])
+      | some (g, out) => pure (reportU E encBucket g out)
+  | _ => none
+
 def handle : Sexp → Option Sexp
   | .list [.atom "hs.det", gr, kind, rej, script, fuel] => handleDet gr kind rej script fuel
+  | .list [.atom "hs.u", gr, kind, rej, script, fuel, kway] => handleU gr kind rej script fuel kway
   | _ => none
 
 end PS.C92
